@@ -921,7 +921,8 @@ class Interp(Engine):
         try:
             src = FuncSource.of(fn)
             env = self.bind_params(src.node, args, kwargs, defaults_fn=fn)
-            return any(all(self.kind_matches(env[pn], pT) for pn, pT in cand.items() if pn in env) for cand in c.variants.values())
+            return any(all(self.kind_matches(env[pn], pT) for pn, pT in cand.items() if pn in env)
+                       for cand in list(c.variants.values()) + list(c.call_variants.values()))
         except Exception:
             return False
 
@@ -969,9 +970,12 @@ class Interp(Engine):
                 self.contract = saved_contract
                 self.in_clause = saved_clause
                 vt = None
-                for vname, cand in c.variants.items():
+                for vname, cand in list(c.variants.items()) + list(c.call_variants.items()):
                     if all(self.kind_matches(code_env[pn], pT) for pn, pT in cand.items() if pn in code_env):
                         vt = cand
+                        if vname in c.call_variants:
+                            self.sh.assumed = getattr(self.sh, "assumed", set())
+                            self.sh.assumed.add("call of %s uses its generic call variant %r (justified by its exhaustively verified constant variants)" % (c.key, vname))
                         break
                 if vt is None:
                     bad = []
